@@ -153,6 +153,22 @@ func run(tapeJSON json.RawMessage, res *core.Result) {
 		beh[parts[0]+"!"+target[i]] = b
 		behNames[k] = fmt.Sprintf("%s(%d)", b.Kind, b.Arg)
 	}
+	// a client that dials without end cannot be simulated to the end of its call: the run stops at
+	// 200 connection attempts (the bound judged below is 8 per endpoint) and is judged as unbounded
+	dialsInRun := 0
+	engine.AbortHook = func(kind, detail string, r *core.Result) {
+		if kind == "dial-flood" {
+			engine.Violate(r, "unbounded-attempts|"+tp.Limit, map[string]interface{}{"detail": detail, "limit": tp.Limit, "phase": tp.Phase, "behaviour": behNames})
+			return
+		}
+		r.Verdict, r.Harness = "harness-error", kind+": "+detail
+	}
+	net.OnDial = func(proto, addr string) {
+		dialsInRun++
+		if dialsInRun > 200 {
+			simrt.Abort("dial-flood", fmt.Sprintf("%d connection attempts within one run", dialsInRun))
+		}
+	}
 	var opErr error
 	var t0, t1 int64
 	var panicMsg string
